@@ -97,8 +97,8 @@ class Raises:
         self._tag, self._aexc, self._iexc = tag, aexc, iexc
 
     def __getattr__(self, name):
-        if name.startswith("_"):
-            raise AttributeError(name)
+        if name.startswith(("_", "jinja_", "unsafe_", "alters_")):
+            raise AttributeError(name)      # marker attributes the engine itself probes (pass_context, sandbox flags), not template lookups
         raise self._aexc("attr " + name)
 
     def __getitem__(self, k):
@@ -258,10 +258,11 @@ CMP = {"eq": operator.eq, "ne": operator.ne, "lt": operator.lt, "lteq": operator
 
 
 class Ref:
-    def __init__(self, undefined, sandboxed=False, autoescape=False):
+    def __init__(self, undefined, sandboxed=False, autoescape=False, is_async=False):
         self.U = undefined
         self.sandboxed = sandboxed
         self.ae = autoescape
+        self.is_async = is_async
 
     def soft(self, v):
         return v if isinstance(v, str) else str(v)
@@ -424,7 +425,8 @@ class Ref:
                 return str(sep).join(items)
             return str(sep).join(str(x) for x in items)
         if name == "sum":
-            return sum(v, 0)
+            # the async implementation collects the items before adding them (bfd2119): only the ORDER of two errors differs
+            return sum(list(v), 0) if self.is_async else sum(v, 0)
         if name == "safe":
             return Markup(v)
         raise ValueError(name)
@@ -723,7 +725,7 @@ def real_run(kind, ucls, entry, src, seeds):
 
 def ref_run(kind, ucls, entry, e, seeds):
     import markupsafe
-    ref = Ref(ucls, sandboxed=kind in ("sandbox", "immutable"), autoescape=kind == "autoescape")
+    ref = Ref(ucls, sandboxed=kind in ("sandbox", "immutable"), autoescape=kind == "autoescape", is_async=kind == "async")
     out = []
     for seed in seeds:
         log = []
